@@ -451,7 +451,12 @@ struct C13 : Scenario {
 			if (thousands) { n = 2000 + (int) rng.below(1500); o.methods = {"-lh0-", "-lz5-", "-lzs-", "-lz4-"}; o.max_payload = 24; p.sets("thousands", "1"); }
 			for (int i = 0; i < n; ++i) {
 				Member m = gen_file(rng, 1 + (int) rng.below(3), "", "m" + std::to_string(i) + gen_name(rng, 4), o);
-				if (rng.chance(1, 2) && m.method != "-lh7-") m.os = 'm';   // as MacLHA flags its members (no envelope: too short)
+				if (rng.chance(1, 2) && m.method != "-lh7-") {
+					m.os = 'm';   // as MacLHA flags its members (no envelope: too short)
+					// or a declared length that admits the 128-byte envelope while the data ends before it: the pass-through
+					// cannot start, member after member, and whatever that path leaves behind adds up
+					if (rng.chance(1, 2)) m.orig = 128 + (int64_t) rng.below(400);
+				}
 				p.members.push_back(m);
 			}
 			Task t;
